@@ -20,6 +20,7 @@ import (
 	"github.com/ElrondNetwork/elrond-go/hashing"
 	"github.com/ElrondNetwork/elrond-go/hashing/blake2b"
 	"github.com/ElrondNetwork/elrond-go/marshal"
+	"github.com/ElrondNetwork/elrond-go/process"
 	"github.com/ElrondNetwork/elrond-go/process/smartContract/hooks"
 	"github.com/ElrondNetwork/elrond-go/testscommon"
 	"github.com/ElrondNetwork/elrond-go/vm"
@@ -120,15 +121,21 @@ func newWorld() (*world, error) {
 	if err != nil || out.ReturnCode != vmcommon.Ok {
 		return nil, fmt.Errorf("esdt init failed: %v", err)
 	}
-	w.apply(out)
+	_, _ = w.apply(out)
 	return w, nil
 }
 
-// apply commits the storage updates of a successful transaction; returns the keys of the ESDT contract
-// that became non-empty and were empty before
-func (w *world) apply(out *vmcommon.VMOutput) (newKeys []string) {
+// apply commits the storage updates of a successful transaction the way the node does
+// (scProcessor.processSCOutputAccounts, process/smartContract/process.go): every update goes through the real
+// process.IsAllowedToSaveUnderKey and is skipped when that says no. Returns the keys of the ESDT contract that became
+// non-empty and were empty before, and the keys whose update was skipped.
+func (w *world) apply(out *vmcommon.VMOutput) (newKeys []string, dropped []string) {
 	for addr, oa := range out.OutputAccounts {
 		for key, su := range oa.StorageUpdates {
+			if !process.IsAllowedToSaveUnderKey(su.Offset) {
+				dropped = append(dropped, string(su.Offset))
+				continue
+			}
 			k := akey{addr, key}
 			old := w.store[k]
 			if len(su.Data) == 0 {
@@ -141,7 +148,7 @@ func (w *world) apply(out *vmcommon.VMOutput) (newKeys []string) {
 			w.store[k] = append([]byte{}, su.Data...)
 		}
 	}
-	return newKeys
+	return newKeys, dropped
 }
 
 var wellFormed = regexp.MustCompile(`^[A-Z0-9]{3,10}-[0-9a-f]{6}$`)
@@ -174,6 +181,45 @@ func randTicker(rng *vk.Rand) string {
 		b[i] = cs[rng.Intn(len(cs))]
 	}
 	return string(b)
+}
+
+func randAlnum(rng *vk.Rand, n int) string {
+	const cs = "ABCDEFGHIJKLMNOPQRSTUVWXYZ0123456789"
+	b := make([]byte, n)
+	for i := range b {
+		b[i] = cs[rng.Intn(len(cs))]
+	}
+	return string(b)
+}
+
+// protectedTicker: a valid ticker ([A-Z0-9]{3,10}) that starts with core.ElrondProtectedKeyPrefix, so that the
+// identifier TICKER-xxxxxx (= the contract's storage key of the token record) starts with it too
+func protectedTicker(rng *vk.Rand) string {
+	return core.ElrondProtectedKeyPrefix + randAlnum(rng, rng.Range(0, 10-len(core.ElrondProtectedKeyPrefix)))
+}
+
+// controlTicker: valid tickers that resemble the protected prefix without starting with it: the word somewhere
+// else in the ticker, or a prefix that differs in one place / is cut short
+func controlTicker(rng *vk.Rand) string {
+	pfx := core.ElrondProtectedKeyPrefix
+	switch rng.Intn(3) {
+	case 0: // contained, not leading
+		pre := randAlnum(rng, rng.Range(1, 10-len(pfx)))
+		return pre + pfx + randAlnum(rng, rng.Range(0, 10-len(pfx)-len(pre)))
+	case 1: // one character of the prefix replaced
+		b := []byte(pfx)
+		i := rng.Intn(len(b))
+		for {
+			ch := randAlnum(rng, 1)[0]
+			if ch != b[i] {
+				b[i] = ch
+				break
+			}
+		}
+		return string(b) + randAlnum(rng, rng.Range(0, 10-len(pfx)))
+	default: // cut short
+		return pfx[:rng.Range(3, len(pfx)-1)]
+	}
 }
 
 // badTicker returns a ticker outside the protocol's ticker alphabet/length ([A-Z0-9]{3,10}) and its class
@@ -211,11 +257,12 @@ func userAddr(i int) []byte {
 func main() {
 	_ = logger.SetLogLevel("*:NONE")
 	r := vk.Start("C41")
-	r.Rule("per case one ESDT contract and a history of 3-6 'bursts': a burst repeats the same (kind in issue/issueSemiFungible/issueNonFungible mixed, caller, random seed, ticker) 1-56 times so that the first candidate identifier already exists and the retry path is walked up to and beyond its limit; the random part comes from real blake2b or is steered to 000000/fffffe/ffffff/ffffd0/00ffff/0fffff; tickers are random [A-Z0-9]{3,10}, some share a prefix; half of the bursts are preceded by one issue with a ticker outside that form (lower/mixed case, 2 or 11-13 characters, punctuation) that must be refused. An issue is non-trivial when its first candidate existed already or the start value was steered; distinct = (kind, start class, retry-depth bucket, outcome).")
+	r.Rule("per case one ESDT contract and a history of 3-6 'bursts': a burst repeats the same (kind in issue/issueSemiFungible/issueNonFungible mixed, caller, random seed, ticker) 1-56 times so that the first candidate identifier already exists and the retry path is walked up to and beyond its limit; the random part comes from real blake2b or is steered to 000000/fffffe/ffffff/ffffd0/00ffff/0fffff; tickers are random [A-Z0-9]{3,10}, some share a prefix; a quarter of the cases also has a ticker that starts with the protected storage-key prefix (core.ElrondProtectedKeyPrefix, 0-4 more characters) and a quarter a control ticker that only contains that word elsewhere, differs from it in one character or is a cut-short form of it; half of the bursts are preceded by one issue with a ticker outside that form (lower/mixed case, 2 or 11-13 characters, punctuation) that must be refused. An issue is non-trivial when its first candidate existed already or the start value was steered; distinct = (kind, start class, retry-depth bucket, outcome).")
 	r.Assume(
 		"an issue that fails with 'token identifier could not be created' is accepted only if at least 50 (the retry limit) identifiers with this ticker exist; otherwise it is reported as spurious-exhaustion",
 		"the identifier is observed three ways that must agree: returned value (ESDTTransfer data for issue, return data for SFT/NFT), the new key in the ESDT contract's storage updates, and the stored token record (ticker, owner)",
 		"the retry order itself (which free identifier is chosen) is not judged",
+		"the harness world keeps the contract's storage the way the node does: each storage update of a successful call is passed through the real process.IsAllowedToSaveUnderKey and skipped when it returns false (scProcessor.processSCOutputAccounts); an issue of a ticker with the protected prefix that the contract REFUSES is accepted (nothing was issued)",
 	)
 	r.MinShapes(25)
 	nCases := r.N(1500, 120000)
@@ -232,6 +279,12 @@ func main() {
 		tickers := []string{randTicker(rng), randTicker(rng)}
 		if len(tickers[0]) < 10 {
 			tickers = append(tickers, tickers[0]+"1") // shares a prefix with the first
+		}
+		if rng.Chance(1, 4) {
+			tickers = append(tickers, protectedTicker(rng))
+		}
+		if rng.Chance(1, 4) {
+			tickers = append(tickers, controlTicker(rng))
 		}
 		seeds := [][]byte{rng.Bytes(32), rng.Bytes(32), rng.Bytes(32)}
 		var trace []string
@@ -291,6 +344,16 @@ func main() {
 				base := w.hasher.Compute(string(append(append([]byte{}, caller...), seed...)))[:3]
 				firstCand := fmt.Sprintf("%s-%s", ticker, hex.EncodeToString(base))
 				_, firstTaken := issued[firstCand]
+				// the node does not save under keys for which process.IsAllowedToSaveUnderKey says no: identifiers of
+				// this ticker (= storage keys of the token records) are such keys
+				protectedTk := !process.IsAllowedToSaveUnderKey([]byte(firstCand))
+				tkClass := "plain"
+				switch {
+				case protectedTk:
+					tkClass = "protected-prefix"
+				case strings.Contains(ticker, core.ElrondProtectedKeyPrefix):
+					tkClass = "contains-protected-word"
+				}
 
 				name := []byte(fmt.Sprintf("Token%d", opIdx))
 				args := [][]byte{name, []byte(ticker)}
@@ -308,6 +371,7 @@ func main() {
 				r.Eval(1)
 				r.Count("tx_"+kind, 1)
 				r.Count("start_"+sc.name, 1)
+				r.Count("tx_ticker_"+tkClass, 1)
 				if err != nil || out == nil {
 					r.Inconclusive(fmt.Sprintf("system VM error: %v", err))
 					return
@@ -324,6 +388,12 @@ func main() {
 					line += fmt.Sprintf(" -> %v %q", out.ReturnCode, out.ReturnMessage)
 					trace = append(trace, line)
 					if !strings.Contains(out.ReturnMessage, exhaustedMsg) {
+						if protectedTk {
+							// a contract that refuses a ticker whose identifiers cannot be stored issues nothing: fine
+							r.Count("protected_prefix_ticker_refused", 1)
+							r.Shape(fmt.Sprintf("%s|%s|protected-prefix|refused", kind, sc.name))
+							continue
+						}
 						r.Inconclusive(fmt.Sprintf("harness problem: issue rejected for another reason: %v %q", out.ReturnCode, out.ReturnMessage))
 						return
 					}
@@ -356,24 +426,36 @@ func main() {
 				} else if len(out.ReturnData) > 0 {
 					returned = append([]byte{}, out.ReturnData[len(out.ReturnData)-1]...)
 				}
-				newKeys := w.apply(out)
+				newKeys, dropped := w.apply(out)
 				id := string(returned)
 				line += " -> " + id
+				if len(dropped) > 0 {
+					line += fmt.Sprintf(" (storage updates not saved, key not allowed: %q)", dropped)
+					r.Count("storage_updates_dropped_key_not_allowed", len(dropped))
+				}
 				trace = append(trace, line)
 				r.Count("issued", 1)
+				r.Count("issued_ticker_"+tkClass, 1)
 				if len(returned) == 0 {
 					r.Violation(c.Idx, "identifier-not-returned", fmt.Sprintf("%s succeeded but no identifier came back", kind), detail())
 					continue
 				}
 				// observed in storage
-				if len(newKeys) != 1 || newKeys[0] != id {
-					if _, dup := issued[id]; !dup { // a duplicate overwrites an existing key: reported below
-						r.Violation(c.Idx, "identifier-not-stored", fmt.Sprintf("%s returned %q, new ESDT storage keys: %q", kind, id, newKeys), detail())
+				// protectedID: the returned identifier is a key the node refuses to save under
+				protectedID := !process.IsAllowedToSaveUnderKey(returned)
+				rec := w.store[akey{string(vm.ESDTSCAddress), id}]
+				if protectedID && len(rec) == 0 {
+					r.Violation(c.Idx, "stored-record-missing class=protected-prefix-ticker", fmt.Sprintf("%s of ticker %s returned Ok and identifier %q, but no token record is stored under it: the contract's update of key %q is not saved (process.IsAllowedToSaveUnderKey is false for keys starting with %q); updates not saved: %q, new ESDT storage keys: %q", kind, ticker, id, id, core.ElrondProtectedKeyPrefix, dropped, newKeys), detail())
+				} else {
+					if len(newKeys) != 1 || newKeys[0] != id {
+						if _, dup := issued[id]; !dup { // a duplicate overwrites an existing key: reported below
+							r.Violation(c.Idx, "identifier-not-stored", fmt.Sprintf("%s returned %q, new ESDT storage keys: %q", kind, id, newKeys), detail())
+						}
 					}
-				}
-				var tok systemSmartContracts.ESDTData
-				if err := (&marshal.GogoProtoMarshalizer{}).Unmarshal(&tok, w.store[akey{string(vm.ESDTSCAddress), id}]); err != nil || string(tok.TickerName) != ticker || !bytes.Equal(tok.OwnerAddress, caller) {
-					r.Violation(c.Idx, "stored-token-mismatch", fmt.Sprintf("record under %q: err=%v ticker=%q owner=%x, issued ticker %q by %x", id, err, tok.TickerName, tok.OwnerAddress, ticker, caller), detail())
+					var tok systemSmartContracts.ESDTData
+					if err := (&marshal.GogoProtoMarshalizer{}).Unmarshal(&tok, rec); err != nil || string(tok.TickerName) != ticker || !bytes.Equal(tok.OwnerAddress, caller) {
+						r.Violation(c.Idx, "stored-token-mismatch", fmt.Sprintf("record under %q: err=%v ticker=%q owner=%x, issued ticker %q by %x", id, err, tok.TickerName, tok.OwnerAddress, ticker, caller), detail())
+					}
 				}
 				// well-formed
 				depth := -1
@@ -392,7 +474,11 @@ func main() {
 				}
 				// unique
 				if prev, dup := issued[id]; dup {
-					r.Violation(c.Idx, "duplicate-identifier", fmt.Sprintf("%s returned %q which operation #%d already got", kind, id, prev), detail())
+					if protectedID {
+						r.Violation(c.Idx, "duplicate-identifier class=protected-prefix-ticker", fmt.Sprintf("%s of ticker %s returned %q which operation #%d already got: the record of that token was never saved (key starts with %q), so the contract found the identifier free again", kind, ticker, id, prev, core.ElrondProtectedKeyPrefix), detail())
+					} else {
+						r.Violation(c.Idx, "duplicate-identifier", fmt.Sprintf("%s returned %q which operation #%d already got", kind, id, prev), detail())
+					}
 				}
 				issued[id] = opIdx
 				perTicker[ticker]++
@@ -400,7 +486,15 @@ func main() {
 				if depth >= 0 {
 					r.Max("max_retry_depth", int64(depth))
 				}
-				if firstTaken || sc.forced != nil {
+				if protectedTk {
+					// the retry path cannot be reached with such a ticker while its records are not saved; own shapes,
+					// not counted as "first candidate existed"
+					o := "first"
+					if firstTaken {
+						o = "first-candidate-issued-before"
+					}
+					r.Shape(fmt.Sprintf("%s|%s|protected-prefix|%s", kind, sc.name, o))
+				} else if firstTaken || sc.forced != nil {
 					bucket := "d0"
 					switch {
 					case depth < 0:
